@@ -341,8 +341,57 @@ def _topo_batch(arg):
     return viols, n, nontriv
 
 
+# ---- one graph written several times while its prefix bindings change ------------------------
+
+HIST_N1, HIST_N2 = EX + "v1#", EX + "v2#"
+HIST_OPS = ["bind v=N1", "bind v=N2 replace", "bind v=N2", "bind w=N1", "bind v=N1 replace", "add N1:name", "add N2:name", "add N1:other", "write"]
+
+
+def run_bind_history(fmt, ops, horizon=5.0):
+    """A graph whose namespace manager is rebound between two writes (every writer asks the manager for compact names, and the manager remembers
+    what it answered): every write must still round-trip. Returns (kind, detail) for the first write that does not."""
+    from rdflib import URIRef
+    g = Graph(bind_namespaces="none")
+    g.add((URIRef(EX + "a"), URIRef(HIST_N1 + "name"), URIRef(EX + "b")))
+    for i, op in enumerate(ops):
+        if op.startswith("bind"):
+            pfx, ns = op.split()[1].split("=")
+            g.bind(pfx, HIST_N1 if ns == "N1" else HIST_N2, replace=op.endswith("replace"))
+        elif op.startswith("add"):
+            ns, local = op.split()[1].split(":")
+            g.add((URIRef(EX + "a"), URIRef((HIST_N1 if ns == "N1" else HIST_N2) + local), URIRef(EX + "b")))
+        else:
+            orig = graph_rows(g)
+            try:
+                with seams.watchdog(horizon):
+                    out = g.serialize(format=fmt)
+                    back = Graph(bind_namespaces="none").parse(data=out, format=PARSE_FMT.get(fmt, fmt))
+            except Exception as e:  # noqa: BLE001
+                return ("write-%d-of-history-raises|%s" % (ops[: i + 1].count("write"), type(e).__name__), {"exc": repr(e)[:300]})
+            if not iso(orig, graph_rows(back)):
+                return ("write-after-rebinding-differs|%s" % ("first-write" if ops[:i].count("write") == 0 else "later-write"),
+                        {"original": sorted(orig, key=repr), "parsed": sorted(graph_rows(back), key=repr), "output": out[:600]})
+    return None
+
+
+def _hist_batch(items):
+    viols = []
+    for fmt, ops in items:
+        v = run_bind_history(fmt, ops)
+        if v:
+            viols.append({"sig": "%s|%s" % (fmt, v[0]), "detail": v[1], "case": {"bind_history": list(ops), "format": fmt}})
+    return viols, len(items)
+
+
 def run(ctx):
     thorough = ctx.tier == "thorough"
+    hist = [(fmt, ops + ("write",)) for fmt in FORMATS if fmt not in ("nt", "hext")
+            for k in range(0, (5 if thorough else 4) + 1) for ops in itertools.product(HIST_OPS, repeat=k)]
+    for viols, n in R.pmap(_hist_batch, R.shards(hist, ctx.jobs * 8), ctx.jobs):
+        ctx.extend(viols)
+        ctx.add("evaluations", n)
+        ctx.add("distinct_nontrivial", n)
+    ctx.cov["bind_histories"] = len(hist)
     terms = term_table(3 if thorough else 2, thorough)
     work = [(sh, FORMATS) for sh in R.shards(terms, ctx.jobs * 8)]
     res = R.pmap(_terms_batch, work, ctx.jobs)
@@ -387,6 +436,9 @@ def run(ctx):
 
 
 def replay(ctx, case):
+    if "bind_history" in case:
+        v = run_bind_history(case["format"], case["bind_history"], horizon=30.0)
+        return [{"sig": "%s|%s" % (case["format"], v[0]), "case": case, "detail": v[1]}] if v else []
     triples = [tuple(tuple(x) if isinstance(x, list) else x for x in tr) for tr in case["triples"]]
     triples = [tuple(list(x) for x in tr) for tr in triples]
     v = roundtrip(triples, case["format"], case["option"], horizon=30.0)
@@ -397,7 +449,7 @@ def replay(ctx, case):
         tc = topo_class(triples)
     else:
         # the varied term is the object of the last triple, or the subject / predicate of the only one
-        tc = term_class(triples[0][0] if emb == "subject" else triples[0][1] if emb == "predicate" else triples[1][2] if emb == "list-member" else triples[3][2] if emb == "list-later-member" else triples[0][2] if emb == "type-object" else triples[-1][2])
+        tc = term_class(triples[0][0] if emb == "subject" else triples[0][1] if emb == "predicate" else triples[1][2] if emb == "list-member" else triples[3][2] if emb == "list-later-member" else triples[0][2] if emb in ("type-object", "first-of-two-values") else triples[1][2] if (emb or "").startswith("bnode-") else triples[-1][2])
     return [{"sig": "%s|%s|%s" % (case["format"], v[0], tc), "case": case, "detail": v[1]}]
 
 
